@@ -169,6 +169,9 @@ def required(m, tier):
 def run(case, ctx):
     import valida
     rules, doc, perms = case["rules"], case["doc"], case["perms"]
+    if case.get("alias") or len(repr(doc)) % 9 == 0:
+        doc = G.alias_containers(doc)  # equal containers are one shared object (a DAG, as YAML aliases give)
+        ctx.count("documents-with-shared-containers")
     n = len(rules)
     exp0 = M.schema_model(rules, doc)
     if exp0 is M.SKIP:
